@@ -208,14 +208,47 @@ def run_c07(ctx):
     def gen():
         return ctx.tlc("YangLexerGen", "YangLexerGen.cfg", workers=8, timeout=800, heap="8g", data={"texts.ndjson": gp},
                        consts={"MaxLen": 3 if q else 4, "Variants": "{1, 2}" if q else "{1, 2, 3}", "NRand": 400 if q else 6000,
-                               "RandLen": 40 if q else 90, "Alphabet": ALPHABET},
+                               "RandLen": 40 if q else 90, "Alphabet": ALPHABET, "NCatTexts": 40 if q else 120, "NCat": 400},
                        extra=["-seed", str(ctx.seed)])
 
-    _, _, _, g = par(mc, pin("YangLexerPinHang.cfg", "Temporal property ParserReturns was violated", "hang at the end of an unquoted word"),
-                     pin("YangLexerPinLeak.cfg", "Temporal property NoLeak was violated", "lexer left blocked on its send"), gen)
-    files = vec_files(g["dir"])
-    vecs, results, fails, events = c07_round(ctx, files, "main", hooks)
-    ctx.traces += len(vecs)
+    # the same harness under the Go race detector (trusted observer of the two goroutines of a Parse call)
+    def race_build():
+        return ctx.build(["ypt"], race=True)
+
+    _, _, _, g, _ = par(mc, pin("YangLexerPinHang.cfg", "Temporal property ParserReturns was violated", "hang at the end of an unquoted word"),
+                        pin("YangLexerPinLeak.cfg", "Temporal property NoLeak was violated", "lexer left blocked on its send"), gen, race_build)
+    allfiles = vec_files(g["dir"])
+    catfile = [f for f in allfiles if f.endswith("vec_300.ndjson")]
+    files = [f for f in allfiles if not f.endswith("vec_300.ndjson")]
+
+    def plain(binary, tag, vfiles, env=None, timeout=600):
+        """run7 without trace; returns (vectors, results)"""
+        res = ctx.path(f"res7_{tag}.ndjson")
+        ctx.run_bin(binary, ["run7", "-out", res, "-workers", "12"] + vfiles, timeout=timeout, env=env)
+        vs = load_all(vfiles)
+        rs = [x["r"] for x in read_ndjson(res)]
+        if len(vs) != len(rs):
+            raise Infra(f"run7 ({tag}) returned {len(rs)} results for {len(vs)} vectors")
+        return vs, rs
+
+    def race_slice():
+        # modules full of concatenations + a slice of the other texts, every Parse call watched by the race detector
+        mv = load_all(files)
+        step = max(1, len(mv) // (1500 if q else 6000))
+        sp = ctx.path("race_slice.ndjson")
+        write_ndjson(sp, mv[::step])
+        return plain("ypt-race", "race", catfile + [sp], env={"GORACE": "halt_on_error=1"}, timeout=900)
+
+    (vecs, results, fails, events), (cvecs, cres), (rvecs, rres) = par(
+        lambda: c07_round(ctx, files, "main", hooks), lambda: plain("yp", "cat", catfile), race_slice)
+    ctx.traces += len(vecs) + len(cvecs) + len(rvecs)
+    # the process-level verdicts of the untraced runs (a data race or an abort of the runtime is not a matter of chance to re-run)
+    for tag, vs, rs in (("concatenations", cvecs, cres), ("race-detector", rvecs, rres)):
+        for v, r in zip(vs, rs):
+            if r["verdict"] not in ("ok", "skipped"):
+                ctx.disagree(dict(site=tag, what=r["verdict"], ret=r["ret"]), f"Parse under {tag}: {r['verdict']} on {show(v['text'], 80)!r}",
+                             dict(kind=tag, text=v["text"][:4000], shown=show(v["text"], 600), result=r,
+                                  how="bin/check C07 (yp / ypt-race run7 on this text, GORACE=halt_on_error=1)"))
     # binding self-test: a trace with one corrupted item extent must be rejected by the validator
     tl = open(ctx.path("trace7_main.ndjson")).read().splitlines()[:400]
     k = next((i for i, l in enumerate(tl) if '"ev":"emit"' in l and '"typ":"String"' in l), None)
@@ -239,7 +272,8 @@ def run_c07(ctx):
         for f in fails:
             byid.setdefault(f["id"], f)
         for i, (v, r) in enumerate(zip(vecs, results)):
-            if i in byid:
+            fatal = any(k in r["verdict"] for k in ("hang", "crash", "panic", "data-race"))
+            if i in byid and not fatal:      # a call that does not return is reported as that, whatever its events were
                 f = byid[i]
                 out[i] = (c07_sig_trace(f), f"trace rejected: {f['what']} (lexer {f['where']}) on {show(v['text'], 80)!r}",
                           dict(kind="trace", text=v["text"], shown=show(v["text"]), failure=f, result=r))
@@ -252,7 +286,7 @@ def run_c07(ctx):
     skipped = sum(1 for r in results if r["verdict"] == "skipped")
     if bad:
         # re-execute the disagreeing cases in isolation; keep what disagrees again
-        ids = sorted(bad)[:60]
+        ids = sorted(bad)[:24]
         cp = ctx.path("confirm7.ndjson")
         write_ndjson(cp, [vecs[i] for i in ids])
         v2, r2, f2, _ = c07_round(ctx, [cp], "confirm", hooks)
@@ -271,7 +305,8 @@ def run_c07(ctx):
                rule="vectors = every text over 15 character classes up to the length bound in several spellings + TLC-sampled longer texts "
                     "+ repository YANG cut at random points; distinct = (state function in which the text ends, inside a block, last item)",
                samples=[dict(text=show(v["text"], 120), endsIn=v["endsIn"], result=r["ret"]) for v, r in list(zip(vecs, results))[7::max(1, len(vecs) // 3)]][:3],
-               mc_maxlen=6 if q else 12, trace_events=events, repo_texts=len(rts), truncated_texts=len(given),
+               mc_maxlen=6 if q else 12, trace_events=events, concatenation_texts=len(cvecs), race_detector_calls=len(rvecs),
+               race_detector_skipped=sum(1 for r in rres if r["verdict"] == "skipped"), repo_texts=len(rts), truncated_texts=len(given),
                hang_budget_skipped=skipped, exhaustive=True,
                explanation="TLC explored the lexer/parser mechanism for every text to the length bound and every abort point (states), generated the "
                            "texts with their line geometry; every text was parsed by the real code under a watchdog with a goroutine dump, and the "
@@ -281,6 +316,7 @@ def run_c07(ctx):
         "close of the channel and the end of the goroutine are one step of the model; the harness polls the goroutine dump for up to 250 ms",
         "token boundaries that do not matter for C07 (word directly followed by a comment, // comment at the end of the text) are accepted either way by the trace validator; C10 judges them",
         "texts longer than the bound are sampled, not exhausted",
+        "memory-level races between the lexer goroutine and the parser are outside the TLA+ model: a slice of the calls runs under the Go race detector (trusted observer)",
     ])
 
 
